@@ -8,55 +8,18 @@ ops (token syntax in Driver/FwShared.lean):
   match <peer> <in|out> <packet…6>                  -> 0|1         FirewallTable.match directly
   drop <peer> <in|out> <packet…6>                   -> pass|remote|peer|local|norule  Firewall.Drop
   clear                                             -> ok          forget all tracked flows
+  sleep <ns>                                        -> ok
 -/
 import Nebula.Driver.FwShared
 
 namespace Nebula.Driver.Fwrules
 open Nebula.Driver Nebula.Driver.Fw Nebula.Net Nebula.Fw
 
-def ruleTag (r : Rule) : String :=
-  (if r.caName != "" || r.caSha != "" then "ca" else "noca") ++ "/" ++
-  (if isAny r.groups r.host r.cidr then "anysel" else "sel")
-
 def step (s : St) (args : List String) (impl : String) : St × Out :=
+  match stepSetup s args impl with
+  | some r => r
+  | none =>
   match args with
-  | "reset" :: dlca :: tcp :: udp :: dflt :: cache :: cert =>
-    match parseCert cert, natArg tcp, natArg udp, natArg dflt, natArg cache with
-    | some my, some tcp, some udp, some dflt, some cache =>
-      let d := dlca == "1"
-      ({ my := my, dlca := d, sys := Sys.new (Fw.new my d tcp udp dflt) cache },
-       { model := "ok", tag := "triv:reset" })
-    | _, _, _, _, _ => (s, badOp)
-  | ["ca", fp, name] =>
-    ({ s with pool := aset sameStr s.pool (strTok fp) (strTok name) }, { model := "ok", tag := "triv:ca" })
-  | "peer" :: id :: cert =>
-    match parseCert cert with
-    | some c =>
-      let m := if (buildNetworks (myNetsOf s.my) c).isNone then "simple" else "table"
-      ({ s with peers := aset sameStr s.peers id c }, { model := m, tag := "triv:peer:" ++ m })
-    | none => (s, badOp)
-  | "rule" :: rule =>
-    match parseRule rule with
-    | some r =>
-      let want := if Spec.Fw.ruleValid r then "ok"
-        else if r.proto = 0 ∨ r.proto = 6 ∨ r.proto = 17 ∨ r.proto = 1 ∨ r.proto = 58 then "err:ports" else "err:proto"
-      match s.sys.fw.addRule r with
-      | .ok fw =>
-        ({ s with sys := { s.sys with fw := fw }, rules := s.rules ++ [r] },
-         { model := "ok", verdict := expect "c16-rule-accept" impl want, tag := "rule:" ++ ruleTag r })
-      | .error e =>
-        ({ s with rules := s.rules ++ [r] },
-         { model := showAddErr e, verdict := expect "c16-rule-accept" impl want, tag := "rule:" ++ showAddErr e })
-    | none => (s, badOp)
-  | "match" :: id :: dir :: pkt =>
-    match s.peer id, dirTok dir, parsePacket pkt with
-    | some c, some inc, some p =>
-      let pr : Peer := { cert := c, pool := s.pool }
-      let m := (s.sys.fw.table inc).matches p inc pr
-      let want := Spec.Fw.allow s.cfg s.rules p inc pr
-      (s, { model := boolStr m, verdict := expect "c16-table-match" impl (boolStr want),
-            tag := "match:" ++ boolStr want })
-    | _, _, _ => (s, badOp)
   | "drop" :: id :: dir :: pkt =>
     match s.peer id, dirTok dir, parsePacket pkt with
     | some c, some inc, some p =>
@@ -81,9 +44,6 @@ def step (s : St) (args : List String) (impl : String) : St × Out :=
          tag := if v = .invalidRemote ∧ !Spec.Fw.remoteOK s.my c p.remoteAddr ∧ h.host.networks.isNone
                 then "triv:" ++ tag else tag })
     | _, _, _ => (s, badOp)
-  | ["clear"] =>
-    ({ s with sys := { s.sys with ct := { s.sys.ct with conns := [] } }, flows := [] },
-     { model := "ok", tag := "triv:clear" })
   | _ => (s, badOp)
 
 def main : IO Unit := runEngine ({} : St) step
